@@ -136,3 +136,15 @@ package aggregates
 //@   ensures wrapped: calls(Add) == old(calls(Add)) + ite((!retraction && !old(has(c.items, cls(value)))) || (retraction && old(get(c.items, cls(value)).count) == 1), 1, 0)
 //@ func (*Distinct).Trigger
 //@   ensures delegates: calls(Trigger) == old(calls(Trigger)) + 1
+
+// C09: the orders the aggregates' ordered containers (min, max, array_agg) are built on are Value.Compare's strict
+// part — so "equal" for them is Compare == 0, as for GROUP BY and ORDER BY.
+//@ func (*minKey).Less
+//@   requires itag(than) == typeidptr(minKey) && iref(than) > 0 && key != nil && validV(key.value) && validV(asptr(than, minKey).value)
+//@   ensures less: result == (cmp(key.value, asptr(than, minKey).value) < 0)
+//@ func (*maxKey).Less
+//@   requires itag(than) == typeidptr(maxKey) && iref(than) > 0 && key != nil && validV(key.value) && validV(asptr(than, maxKey).value)
+//@   ensures less: result == (cmp(key.value, asptr(than, maxKey).value) < 0)
+//@ func (*arrayKey).Less
+//@   requires itag(than) == typeidptr(arrayKey) && iref(than) > 0 && key != nil && validV(key.value) && validV(asptr(than, arrayKey).value)
+//@   ensures less: result == (cmp(key.value, asptr(than, arrayKey).value) < 0)
